@@ -8,12 +8,12 @@ MGR_STUBS = ["rtr_start: recorder", "pfx/spki table init/free/src_remove: no-op 
              "pthread_join: no-ops", "qsort: insertion-sort model", "typed size-class allocator", "rwlock: sequential model"]
 
 
-def mjob(name, entry, ng, timeout=900):
+def mjob(name, entry, ng, timeout=900, extra=None):
     us = dict([("harness_step.%d" % i, 40) for i in range(30)] + [("harness_config.%d" % i, 40) for i in range(30)] +
               [("arbitrary_groups.%d" % i, 12) for i in range(4)] + [("locate.0", 8), ("locate.1", 8), ("vl_slot.0", 6), ("vl_slot.1", 6), ("rtr_mgr_cb", 3), ("rtr_stop", 3),
                ("rtr_change_socket_state", 3), ("set_status", 4), ("_rtr_mgr_cb_state_established", 2),
                ("rtr_mgr_close_less_preferable_groups", 2), ("_rtr_mgr_cb_state_shutdown", 3), ("_rtr_mgr_cb_state_error", 2)])
-    return core.Job(name=name, harness="mgr_unit.c", entry=entry, defines=["NG=%d" % ng], unwind=ng + 4, unwindset=us,
+    return core.Job(name=name, harness="mgr_unit.c", entry=entry, defines=["NG=%d" % ng] + (extra or []), unwind=ng + 4, unwindset=us,
                     timeout=timeout, mem_gb=12, sources=MGR_SOURCES, object_bits=11,
                     desc="real rtr_mgr.c (%s) with %d groups x <=2 sockets, preferences / statuses / socket states / last_update "
                          "/ event symbolic; real rtr_stop + rtr_change_socket_state underneath" % (entry, ng),
@@ -22,5 +22,8 @@ def mjob(name, entry, ng, timeout=900):
 
 def jobs(tier):
     J = [mjob("config_ng%d" % n, "harness_config", n) for n in (1, 2, 3)]
-    J += [mjob("step_ng%d" % n, "harness_step", n) for n in (1, 2, 3)]
+    for n in (1, 2, 3):
+        for g in range(n):
+            for k in (0, 1):
+                J.append(mjob("step_ng%d_g%d_s%d" % (n, g, k), "harness_step", n, extra=["EV_G=%d" % g, "EV_K=%d" % k]))
     return J
